@@ -359,7 +359,15 @@ func IsException(exception *Type, r interface{}) bool {
 
 // FIXME prototype __getattr__ before we do introspection!
 func (e *Exception) M__getattr__(name string) (Object, error) {
-	return e.Args, nil // FIXME All attributes are args!
+	// StopIteration.value is the first argument, None when there is
+	// none: the return value of a generator (PEP 380)
+	if name == "value" && e.Base != nil && e.Base.IsSubtype(StopIteration) {
+		if args, ok := e.Args.(Tuple); ok && len(args) > 0 {
+			return args[0], nil
+		}
+		return None, nil
+	}
+	return e.Args, nil // FIXME All other attributes are args!
 }
 
 func (e *Exception) M__str__() (Object, error) {
